@@ -138,7 +138,7 @@ func generate(n int, seed uint64) []*Case {
 	}
 	for len(cases) < n {
 		x := r.Intn(100)
-		if x >= 66 && x < 78 && r.Intn(25) != 0 {
+		if x >= 68 && x < 78 && r.Intn(25) != 0 {
 			x = r.Intn(66) // the cut-at-every-byte family yields ~50 cases per draw
 		}
 		switch {
@@ -161,22 +161,35 @@ func generate(n int, seed uint64) []*Case {
 				Kinds: r.PickS([]string{"", "", "d", "d", "f", "s", "sf", "fd"})}
 			s, _, _, _ := sp.Synthesize()
 			add("synth/valid", s)
-		case x < 60:
-			switch r.Intn(8) {
+		case x < 63:
+			switch r.Intn(16) {
 			case 0:
 				sp := SynthSpec{Seed: r.U64(), Blocks: 1, Size: 100, Kinds: "E"}
 				s, _, _, _ := sp.Synthesize()
 				add("synth/edge", s)
 			case 1, 2:
 				add("longonly", synthLongOnly(r))
+			case 3, 4, 5:
+				st, off := synthOvfRoll(r)
+				add("ovfroll", st)
+				c := cases[len(cases)-1]
+				// everything up to somewhere in the dynamic block at once, the rest byte by byte
+				first := off + r.Intn(len(st)-off)
+				c.Chunks = []int{first}
+				for i := first; i < len(st); i++ {
+					c.Chunks = append(c.Chunks, 1)
+				}
+				if r.Bool() {
+					c.BufSize = 65536
+				}
 			default:
 				st := synthBoundary(r)
 				add("boundary", st)
 				c := cases[len(cases)-1]
-				switch r.Intn(5) {
+				switch r.Intn(6) {
 				case 0, 1:
 					c.Chunks, c.BufSize = nil, 65536
-				case 2, 3:
+				case 2, 3, 4:
 					// everything up to a short tail at once, the tail byte by byte: the entry that
 					// meets the output boundary then also meets the end of the delivered input
 					tail := r.Range(1, 80)
@@ -192,7 +205,7 @@ func generate(n int, seed uint64) []*Case {
 					}
 				}
 			}
-		case x < 66:
+		case x < 68:
 			blocks := r.Range(1, 4)
 			sp := SynthSpec{Seed: r.U64(), Blocks: blocks, Size: r.Range(1, 3000), Fault: r.PickS(faultKinds),
 				FaultB: r.Intn(blocks), Kinds: r.PickS([]string{"", "d", "d"})}
@@ -229,19 +242,27 @@ func generate(n int, seed uint64) []*Case {
 			// one final dynamic block cut so that exactly 2048 / 4096 bytes (+-1) are left when
 			// its header is decoded (the table builder then switches between single, pair and
 			// triple entries), delivered at once
+			// (small alphabets: short codes, so that pair and triple entries are the rule)
+			// (compress/flate never sets BFINAL on a data block, so the block is synthesised)
 			var st []byte
 			for tries := 0; tries < 20 && len(st) < 4200; tries++ {
-				d := DataSpec{Gen: r.PickS([]string{"text", "uni4", "uni6", "mix", "fib"}), Seed: r.U64(), N: r.Range(9000, 30000)}.Generate()
-				st = stdDeflate(d, r.Pick([]int{6, 9, -2}))
+				w := &bitW{}
+				var out []byte
+				smallDynBlock(r, w, &out, true, r.Range(12000, 40000), 0, 0)
+				st = w.bytes()
 			}
-			t := r.Pick([]int{2048, 4096}) + 8 + r.Range(-1, 1)
-			if t > len(st) {
-				t = len(st)
+			for _, t := range []int{2048 + 8, 2048 + 9, 4096 + 8, 4096 + 9} {
+				if t > len(st) || len(cases) >= n {
+					continue
+				}
+				c := &Case{Name: "thresh", Stream: st[:t]}
+				schedule(r, c)
+				c.Chunks, c.BufSize = nil, r.Pick([]int{4096, 65536})
+				if t > 4096 {
+					c.BufSize = 65536
+				}
+				cases = append(cases, c)
 			}
-			c := &Case{Name: "thresh", Stream: st[:t]}
-			schedule(r, c)
-			c.Chunks, c.BufSize = nil, r.Pick([]int{4096, 65536})
-			cases = append(cases, c)
 		case x < 82:
 			// larger stream cut at a random place
 			s, desc := validStream(r, r.Range(1, 2))
